@@ -291,3 +291,31 @@ def ok_C03(ctx, snap):
 
 
 ALL = {"C01": ok_C01, "C02": ok_C02, "C03": ok_C03, "C04": ok_C04, "C05": ok_C05, "C08": ok_C08}
+
+
+def ok_C19(ctx, snap):
+    """the user constraints (bounds on cached fields) on the implementation's snapshot"""
+    m = ctx.m
+    fails = []
+    for v, cells in snap["cells"].items():
+        for i, c in enumerate(cells):
+            if i == 0:
+                continue
+            last = i == len(cells) - 1
+            for (f, mx, veh, temporal) in m.get("user", []):
+                if veh and not last:
+                    continue
+                if f.startswith("level"):
+                    r = int(f[5:])
+                    lv = c["L"].split(",") if c["L"] != "-" else []
+                    val = F(lv[r]) if r < len(lv) else F(0)
+                else:
+                    val = {"pos": F(c["P"]), "arrival": F(c["a"]), "start": F(c["s"]), "end": F(c["e"]),
+                           "cumtravel": F(c["ct"]), "wait": F(c["s"]) - F(c["a"])}[f]
+                if val > mx:
+                    fails.append("user constraint %s <= %s (%s-level) violated at stop %d of vehicle %d: %s" %
+                                 (f, mx, "vehicle" if veh else "stop", c["stop"], v, val))
+    return fails
+
+
+ALL["C19"] = ok_C19
